@@ -611,6 +611,15 @@ T('C17', 'twin-rename-local', NU,
 # ---------------------------------------------------------------------- C18
 R('C18', 'regress-D20-int-overflow', '83e742f-int---of-an-infinite-decimal-is-NULL.diff', ('R-CASTTOTAL', 'function:int('))
 R('C18', 'regress-D21-date-overflow', '040101f-date-y--m--d--with-out-of-range-integers-is-NULL.diff', ('R-CASTTOTAL', 'function:date(int, int, int)'))
+R('C18', 'regress-D28-date-bin-month-boundary', 'd58f907-date_bin-month-boundary.diff', ('R-BINFLOOR', 'date_bin'))
+T('C18', 'twin-date-bin-truncate-then-correct', QE,
+  "        modulo = diff % seconds\n        delta = diff - modulo\n", "        delta = int(diff / seconds) * seconds\n        modulo = diff - delta\n")
+M('C18', 'date-bin-days-truncates', QE,
+  "        modulo = diff % seconds\n        delta = diff - modulo\n", "        delta = int(diff / seconds) * seconds\n        modulo = 0\n", ('R-BINFLOOR', 'date_bin'))
+M('C18', 'date-bin-days-ceil', QE,
+  "        modulo = diff % seconds\n        delta = diff - modulo\n", "        delta = -(-diff // seconds) * seconds\n        modulo = 0\n", ('R-BINFLOOR', 'date_bin'), expect_error=True)
+T('C18', 'twin-date-bin-floordiv', QE,
+  "        modulo = diff % seconds\n        delta = diff - modulo\n", "        delta = diff // seconds * seconds\n        modulo = diff - delta\n")
 M('C18', 'int-cast-typeerror-not-caught', QE,
   "    except (ValueError, TypeError, OverflowError):\n        return None\n\n\n@function([Decimal], Decimal, name='decimal')",
   "    except (ValueError, OverflowError):\n        return None\n\n\n@function([Decimal], Decimal, name='decimal')", ('R-CASTTOTAL', 'function:int(object)'))
@@ -856,7 +865,7 @@ M('C19', 'numberify-setting-ignored', SH,
 T('C19', 'twin-error-message-reworded', SH, "            self.error('invalid number of arguments')", "            self.error('invalid number of arguments')  # usage")
 
 # ---------------------------------------------------------------------- benign refactorings (selftest/benign/*.diff)
-# Behaviour-preserving patches written by independent agents (notes in selftest/benign/NOTES.md).  Each is a twin for every
+# Behaviour-preserving patches written by independent agents (notes in selftest/benign/*.notes.txt).  Each is a twin for every
 # property whose anchor files it touches: the findings of the tree must not change.
 def _benign_twins():
     import glob
